@@ -44,7 +44,7 @@ def iter_ops(rng, nkeys, n):
     return ",".join(ops)
 
 
-def gen_history(rng, hid, nops, weights, big=40000):
+def gen_history(rng, hid, nops, weights, big=40000, dircheck=False):
     """weights: dict of relative op weights: put del batch get snap iter compact reopen wait"""
     nkeys = rng.choice([4, 8, 14, 20])
     toks = ["h%s" % hid, rcfg(rng)]
@@ -59,6 +59,8 @@ def gen_history(rng, hid, nops, weights, big=40000):
         toks.append("X")
         toks.append("A")
         toks.append("T")
+        if dircheck and not live_iters and not live_snaps:
+            toks.append("Y")
         for k in KEYS[:nkeys]:
             toks.append("G" + k)
         for s in live_snaps:
